@@ -97,3 +97,51 @@ Proof.
   destruct Hin' as [k Hk]. destruct (index_of_app_left _ _ extra [] _ Hk) as [H1 _].
   rewrite H1 in Ej. inversion Ej; subst. exact Hk.
 Qed.
+
+(* ---- field options other than `name` / `ignore` do not affect values ----
+   The model's structure is a function of (name, number, ignored, type) only;
+   [Gen.ProtoSchema.proto_annotated] lists every field that carries another
+   yara option (lowercase, fmt, acl, deprecation_notice).  Each of them is an
+   ordinary visible field of the generated schema with a scalar type (string
+   for `lowercase`), so [lookup_correct] applies to it as to any other field:
+   the value a condition reads is the value in the message. *)
+Fixpoint unwrap (t : ty) : ty :=
+  match t with TArr e => unwrap e | TMap _ v => unwrap v | _ => t end.
+(* the type a path of field names leads to, stepping through arrays and maps *)
+Fixpoint type_by_names (t : ty) (p : list N) : option ty :=
+  match p with
+  | [] => Some (unwrap t)
+  | n :: r => match unwrap t with
+              | TMsg _ fs _ => match find_field n fs with Some f => type_by_names (fd_ty f) r | None => None end
+              | _ => None
+              end
+  end.
+
+Definition annotated_row_ok (m : string) (g : ty) (row : list string * list string) : bool :=
+  match type_by_names g (map (nm m) (fst row)) with
+  | Some t => scalar_ty t &&
+              (negb (existsb (String.eqb "lowercase") (snd row)) || match t with TStr => true | _ => false end)
+  | None => false
+  end.
+
+Definition annotated_ok (e : string * list (list string * list string)) : bool :=
+  match generated_schema (fst e) with
+  | Some g => forallb (annotated_row_ok (fst e) g) (snd e)
+  | None => false
+  end.
+
+Lemma annotated_fields_ordinary : forallb annotated_ok proto_annotated = true.
+Proof. vm_compute. reflexivity. Qed.
+
+(* at the root of a module: an annotated scalar field set in the message is read unchanged *)
+Lemma annotated_root_field_value : forall m names syn fs extra n f msgbody x enums,
+  In (m, (names, TMsg syn fs extra)) proto_schemas ->
+  find_field n fs = Some f -> fd_ty f = TStr -> assoc_n (fd_number f) msgbody = Some (VStr x) ->
+  lookup (TMsg syn fs extra) (Some (VMsg msgbody)) enums [SField n] = RS x.
+Proof.
+  intros m names syn fs extra n f msgbody x enums Hin Hf Ht Ha.
+  destruct (index_stable_lemma fs n f extra [] Hf) as [i [Hi _]].
+  rewrite lookup_correct_lemma.
+  - unfold get_root. cbn [get]. rewrite Hf, Ha, Ht. reflexivity.
+  - cbn [compile_path]. rewrite Hi, Hf. cbn [compile_path]. discriminate.
+Qed.
